@@ -136,3 +136,12 @@ type GCHolder struct {
 	P  *string
 	R  *GCHolder
 }
+
+// RecDag: a chain through Next with two side pointers that may alias other nodes of the same
+// (acyclic) graph; Side is encoded before Next, Tail after it.
+type RecDag struct {
+	ID   int     `json:"id"`
+	Side *RecDag `json:"side,omitempty"`
+	Next *RecDag `json:"next,omitempty"`
+	Tail *RecDag `json:"tail,omitempty"`
+}
